@@ -382,6 +382,10 @@ class DecimalFieldFormat(AbstractFieldFormat):
     :py:const:`cutplace.data.KEY_THOUSANDS_SEPARATOR` into account.
     """
 
+    #: Decimal numbers with "." as decimal separator as they can show up in data, which is less than what
+    #: ``decimal.Decimal()`` accepts.
+    _DECIMAL_REGEX = re.compile(r"^[+-]?([0-9]+\.?[0-9]*|\.[0-9]+)([eE][+-]?[0-9]+)?\Z")
+
     def __init__(self, field_name, is_allowed_to_be_empty, length_text, rule, data_format, empty_value=None):
         super().__init__(field_name, is_allowed_to_be_empty, length_text, "", data_format, empty_value)
         assert rule is not None, 'to specify "no rule" use "" instead of None'
@@ -463,6 +467,9 @@ class DecimalFieldFormat(AbstractFieldFormat):
                 translated_value += character_to_process
 
         try:
+            if DecimalFieldFormat._DECIMAL_REGEX.match(translated_value) is None:
+                # For example digits grouped with "_" or digits of other scripts, which Decimal() would accept.
+                raise ValueError("value must consist of digits, possibly with sign, fraction and exponent")
             result = decimal.Decimal(translated_value)
         except Exception as error:
             # TODO: limit exception handler to decimal exception or whatever decimal.Decimal raises.
@@ -483,6 +490,9 @@ class IntegerFieldFormat(AbstractFieldFormat):
     """
     Field format accepting numeric integer values (without fractional part).
     """
+
+    #: Integer numbers as they can show up in data, which is less than what ``int()`` accepts.
+    _INTEGER_REGEX = re.compile(r"^[+-]?[0-9]+\Z")
 
     def __init__(self, field_name, is_allowed_to_be_empty, length_text, rule, data_format, empty_value=None):
         super().__init__(field_name, is_allowed_to_be_empty, length_text, rule, data_format, empty_value)
@@ -589,6 +599,9 @@ class IntegerFieldFormat(AbstractFieldFormat):
         assert value
 
         try:
+            if IntegerFieldFormat._INTEGER_REGEX.match(value) is None:
+                # For example digits grouped with "_" or digits of other scripts, which int() would accept.
+                raise ValueError("value must match regular expression")
             value_as_int = int(value)
         except ValueError:
             raise errors.FieldValueError("value must be an integer number: %s" % _compat.text_repr(value))
